@@ -122,7 +122,7 @@ PROOF_UNITS['C08'] = PROOF_UNITS['C08'] + _C02_ACCUM
 # property id -> list of bounded part names (functions in bounded/parts.py)
 BOUNDED_PARTS = {
     'C01': ['c01_presence', 'engine_differential'],
-    'C02': ['c02_queries'],
+    'C02': ['c02_queries', 'query_executor_differential'],
     'C03': ['c03_canonical', 'c03_derived_constructors'],
     'C04': ['c04_snapshots'],
     'C05': ['c05_stream'],
